@@ -17,6 +17,7 @@
 #include <memory>
 
 using namespace sim;
+extern "C" { extern volatile int sim_atomic_yield_mode; extern volatile long sim_atomic_yield_count; }
 
 namespace {
 
@@ -77,12 +78,15 @@ struct C14 : Profile {
   std::vector<std::string> assumptions() const override { return {"interleavings are decided at hook points (statement, temporary allocation, plugin call), finer races are found by TSan's happens-before analysis over the serialised run", "random/getenv/input are not generated (documented process-global inputs)", "object state (vf.set/get) is not generated: objects are shared by reference as documented"}; }
   json sample(const json& plan) const override { json s = plan; s.erase("ast"); if (s.contains("text_body") && s["text_body"].get<std::string>().size() > 600) s["text_body"] = s["text_body"].get<std::string>().substr(0, 600) + "..."; if (s.contains("text_setup") && s["text_setup"].get<std::string>().size() > 400) s["text_setup"] = s["text_setup"].get<std::string>().substr(0, 400) + "..."; return s; }
 
+  static bool has_shared_v(const json& ast) { for (auto& s : ast["prelude"]) if (s.value("k", "") == "let" && s.value("n", "") == "v") return true; return false; }
   void fill_text(json& plan) {
     const json& ast = plan["ast"];
     std::vector<json> setup; for (auto& s : ast["prelude"]) setup.push_back(s); for (auto& s : ast["funcs"]) setup.push_back(s);
     std::vector<json> body;
     // a function of the shared setup declared again by the concurrently running program: every context installs the new body for itself only
     if (plan.value("redeclare", false) && !ast["funcs"].empty()) { json f = ast["funcs"][0]; json nb = json::array(); nb.push_back(json{{"k", "print"}, {"es", json::array({json{{"k", "str"}, {"v", "redeclared"}}})}}); for (auto& s : f["body"]) nb.push_back(s); f["body"] = nb; body.push_back(f); }
+    // every clone drops the handle of the module object it shares with the original and its siblings (v of the shared setup) as its first statement
+    if (plan.value("release_shared", false) && has_shared_v(ast)) body.push_back(json{{"k", "let"}, {"n", "v"}, {"e", json{{"k", "vfnew"}, {"tag", nullptr}, {"t", "obj"}}}});
     for (auto& s : ast["body"]) body.push_back(s);
     plan["text_setup"] = enc(print_statements(setup)); plan["text_body"] = enc(print_statements(body));
   }
@@ -96,7 +100,13 @@ struct C14 : Profile {
     Rng gr(subseed(runseed(vseed, runno), "gen"));
     GenProgram p = gen_program(gr, k);
     strip_object_state(p.ast);
-    plan["ast"] = p.ast; plan["redeclare"] = r.chance(0.3); fill_text(plan);
+    plan["ast"] = p.ast; plan["redeclare"] = r.chance(0.3);
+    // handle-release scenario: atomic operations of the library are scheduling points (tsan flavour), dense seeded switching, every clone releases the shared object first
+    Rng ar(subseed(runseed(vseed, runno), "atomic"));
+    const bool storm = has_shared_v(p.ast) && ar.chance(0.25);
+    plan["release_shared"] = storm || (has_shared_v(p.ast) && ar.chance(0.1));
+    plan["yield_atomic"] = storm || ar.chance(0.1);
+    fill_text(plan);
     int maxt = tier == "thorough" ? 8 : 4;
     int nt = (int)r.range(2, r.chance(0.7) ? 3 : maxt);
     plan["ntasks"] = nt;
@@ -118,8 +128,14 @@ struct C14 : Profile {
       faults.push_back(json{{"task", t}, {"point", fr.range(1, p.fault_points)}, {"visit", fr.range(1, 2)}, {"code", f.code}, {"arg", f.arg}, {"kind", f.kind}});
     }
     plan["faults"] = faults;
+    if (storm) {   // dense switching over the first yields: each yield switches with probability p to a seeded task
+      double pr = ar.pick(std::vector<double>{0.05, 0.15, 0.3}); json dsw = json::array();
+      for (long n = 0; n < 400; ++n) if (ar.chance(pr)) dsw.push_back(json::array({n, (long)ar.below(nt + 1)}));
+      plan["switches"] = dsw; plan["yield_alloc"] = false; plan["yield_trace"] = false;
+    }
     static const char* LIFE[] = {"none", "none", "none", "purge_orig", "free_orig", "break_orig", "break_clone0", "free_orig_before", "purge_orig_before", "clone_of_clone"};
     plan["life"] = LIFE[fr.below(10)];
+    if (storm && ar.chance(0.6)) plan["life"] = ar.chance(0.5) ? "free_orig_before" : "purge_orig_before";
     plan["pre_run"] = fr.chance(0.4);
     return plan;
   }
@@ -198,6 +214,10 @@ struct C14 : Profile {
     if (yield_alloc) hooks.on_allocate = [](bloc::Context&) { Sched::yield(); };
     if (plan.value("yield_trace", false)) { hooks.on_trace = []() { Sched::yield(); }; ++res.probes["plans_with_trace_point_yields"]; }
     hooks.install();
+    const bool yield_atomic = plan.value("yield_atomic", false);
+    sim_atomic_yield_count = 0; sim_atomic_yield_mode = yield_atomic ? 1 : 0;
+    if (yield_atomic) ++res.probes["plans_with_atomic_operation_yields"];
+    if (plan.value("release_shared", false)) ++res.probes["plans_releasing_the_shared_object_in_every_clone"];
     Sched sched; std::vector<int> done(nt, 0); bool life_ran = false;
     for (int t = 0; t < nt; ++t) sched.add([&, t]() { got[t] = run_in(*clones[t], *caps[t], be); done[t] = 1; });
     sched.add([&]() {   // lifecycle task: runs when the plan switches to it (or last)
@@ -210,6 +230,7 @@ struct C14 : Profile {
     std::vector<std::pair<long, int>> sw; for (auto& s : plan.value("switches", json::array())) sw.push_back({s[0].get<long>(), s[1].get<int>()});
     sched.run(sw, 0);
     Hooks::remove();
+    sim_atomic_yield_mode = 0; if (sim_atomic_yield_count > 0) res.probes["yields_at_atomic_operations"] += sim_atomic_yield_count;
     res.steps = sched.yields;
     for (size_t i = 0; i + 3 <= sched.trace.size(); i += 3) ev.add("sw:" + std::to_string(sched.trace[i]) + ":" + std::to_string(sched.trace[i + 1]) + ">" + std::to_string(sched.trace[i + 2]));
     if (sched.switches > nt + 1) res.nontrivial = true;   // more than the hand-overs at task exit
@@ -267,6 +288,9 @@ struct C14 : Profile {
     if (plan.value("pre_run", false)) { json p = plan; p["pre_run"] = false; v.push_back(p); }
     if (plan.value("yield_alloc", false)) { json p = plan; p["yield_alloc"] = false; v.push_back(p); }
     if (plan.value("yield_trace", false)) { json p = plan; p["yield_trace"] = false; v.push_back(p); }
+    if (plan.value("yield_atomic", false)) { json p = plan; p["yield_atomic"] = false; v.push_back(p); }
+    if (plan.value("release_shared", false)) { json p = plan; p["release_shared"] = false; fill_text(p); v.push_back(p); }
+    if (sw.size() > 8) { json p = plan; json h = json::array(); for (size_t i = 0; i < sw.size() / 2; ++i) h.push_back(sw[i]); p["switches"] = h; v.push_back(p); json q = plan; json h2 = json::array(); for (size_t i = sw.size() / 2; i < sw.size(); ++i) h2.push_back(sw[i]); q["switches"] = h2; v.push_back(q); }
     if (plan.value("redeclare", false)) { json p = plan; p["redeclare"] = false; fill_text(p); v.push_back(p); }
     if (plan.value("ntasks", 2) > 2) { json p = plan; p["ntasks"] = plan.value("ntasks", 2) - 1; json nf = json::array(); for (auto& x : p["faults"]) if (x.value("task", 0) < p["ntasks"].get<int>()) nf.push_back(x); p["faults"] = nf; v.push_back(p); }
     if (plan.contains("ast")) for (json& a : shrink_ast(plan["ast"])) { json p = plan; p["ast"] = a; fill_text(p); v.push_back(p); if (v.size() > 250) break; }
